@@ -47,6 +47,19 @@ var r141Confirmed = map[string]string{
 	"R14.1|(*decryptor/postgresql.ParsePacket).QueryString|slice .query[:len(.query)-1]":             "query always ends with its NUL: NewParsePacket slices up to and including the terminator, ReplaceQuery appends one, so len >= 1",
 	"R14.1|crypto.DeserializeEncryptedData|make make(len getSerializedContainerLength(encrypted)#0)": "getSerializedContainerLength returns internalLength <= len(encrypted)-12 or an error; every caller has validated len(encrypted) > 12 first (getEnvelopeIDFromData -> validateSerializedContainer); a wrapped length-12 is rejected by the same comparison",
 	"R14.1|sqlparser.ExtractMysqlComment|slice sql[3:len(sql)-2]":                                    "the only caller, Tokenizer.scanMySQLSpecificComment, passes a buffer it has written \"/*!\" and, before leaving its loop, at least the closing '*' and '/' into: len(sql) >= 5 (kept honest by the caller witness of R14.1)",
+	"R14.1|(*decryptor/mysql.Handler).processBinaryDataRow|index rowData[:][rangeindex+1+2/8]": "nullBitmap is rowData[1:pos] with pos = 1 + (len(fields)+9)>>3 (checked against len(rowData) just before), so it holds (len(fields)+9)/8 bytes, and (i+2)/8 <= (len(fields)+1)/8 for i < len(fields): integer division, outside the prover's difference logic",
+	"R14.1|(*hmac.Processor).OnColumn|slice data[p.matchedHash.Length():]":       "matchedHash is ExtractHash(data) of this very buffer, non-nil here: ExtractHash builds the hash over data[:size+1] only after len(data[1:]) >= size, and Length() is the length of that slice (both kept honest by the hash-prefix witness of R14.1)",
+	"R14.1|(*hmac.Processor).OnColumn|slice data[p.matchedHash.Length():] #2":    "same hash of the same buffer (the field is not reassigned in between)",
+	"R14.1|hmac.DecryptRotatedSearchableAcraBlock|slice acraBlock[hash.Length():]":   "hash is ExtractHash(acraBlock), non-nil on this path: Length() <= len(acraBlock) (hash-prefix witness)",
+	"R14.1|hmac.DecryptRotatedSearchableAcraStruct|slice acrastruct[hash.Length():]": "hash is ExtractHash(acrastruct), non-nil on this path: Length() <= len(acrastruct) (hash-prefix witness)",
+	"R14.1|hmac.ExtractHashAndData|slice container[hashData.Length():]":              "hashData is ExtractHash(container), non-nil on this path (hash-prefix witness)",
+	"R14.1|hmac.NewHashProcessor$1|slice data[hash.Length():]":                       "hash is ExtractHash(data), non-nil on this path (hash-prefix witness)",
+	"R14.1|acrastruct.GetDataLengthFromAcraStruct|slice data[GetMinAcraStructLength()-8:GetMinAcraStructLength()]": "all four callers (ValidateAcraStructLength, ExtractAcraStruct, ProcessAcraStructs, crypto.matchOldContainer after ValidateAcraStructLength) compare len(data) with GetMinAcraStructLength() first; the value is a package-level sum the prover numbers per function, so the caller guard does not transfer",
+	"R14.1|sqlparser.SplitMarginComments|slice sql[:trailingCommentStart(sql)]":      "trailingCommentStart returns len(text) or a position its own loop keeps within [0, len(text)] (a LastIndex result on a prefix of text); loop-carried result, outside the summary engine",
+	"R14.1|sqlparser.SplitMarginComments|slice sql[:leadingCommentEnd(sql[:trailingStart])]": "leadingCommentEnd returns 0 or a cursor its loop keeps <= len(text) with text = sql[:trailingStart]",
+	"R14.1|sqlparser.SplitMarginComments|slice sql[trailingCommentStart(sql):]":      "same result of trailingCommentStart, within [0, len(sql)]",
+	"R14.1|sqlparser.SplitMarginComments|slice sql[leadingCommentEnd(sql[:trailingStart]):trailingCommentStart(sql)]": "leadingEnd <= trailingStart because leadingCommentEnd was given sql[:trailingStart]",
+	"R14.1|utils.WriteFull|slice sliceCopy[totalSent+wr.Write(sliceCopy)#0:]":       "reached only after a short write without an error, which the io.Writer contract excludes (n < len(p) implies a non-nil error): with a conforming writer the function returns at totalSent == len(data) first. Not input-dependent. (Observed: were it reached, the cursor is applied twice - noted in DESIGN.md)",
 	"R14.1|pseudonymization.randomEmail|slice buf[:len(buf)-len(_)]":                                 "guard len(buf) >= 5; below 8 bytes only the 3-byte country TLDs are used, the longest TLD (.info) has 5 bytes: len(tld) <= len(buf)",
 	"R14.1|pseudonymization.randomEmail|slice buf[len(buf)-len(_):]":                                 "same: 0 <= len(buf)-len(tld) <= len(buf)",
 	"R14.1|pseudonymization.randomEmail|index buf[len(buf)-len(_)/2]":                                "same, and len(buf)-len(tld) >= 0 so the middle index is within [0, len(buf))",
@@ -78,6 +91,7 @@ func boundsRuleK(p *Program, r *Report, rule string, files []string, confirmed m
 		}
 		pr := newProverP(p, fn, 0)
 		pr.constBounds = constBounds
+		pr.classV = constBounds // computed positions (cursors, positions handed in, results of helpers) on received buffers
 		verdicts := pr.CheckSinks(nil)
 		sort.SliceStable(verdicts, func(i, j int) bool { return verdicts[i].Sink.Instr.Pos() < verdicts[j].Sink.Instr.Pos() })
 		seen := map[string]int{}
@@ -109,6 +123,7 @@ func runC14(p *Program, r *Report) {
 	ruleR141WitnessEmail(p, r)
 	witnessFieldLen(p, r, "R14.1", "decryptor/postgresql.PacketHandler", "descriptionLengthBuf", 4)
 	ruleR141WitnessComment(p, r)
+	ruleR141WitnessHashPrefix(p, r)
 	r.Rule("R14.3", "E1", 4, "bounded allocation: every make / Buffer.Grow / io.CopyN in the decoders whose size derives from a length field of the input has a finite upper bound that the sender does not control alone: a constant, the length of data already held, or the Len() of the reader it is read from")
 	ruleR143(p, r)
 	r.Rule("R14.4", "E3", 3, "connection isolation: every goroutine that AcraServer starts to serve a client connection runs a function whose first deferred call is recoverConnection (a panic in a decoder ends that connection, not the process)")
@@ -836,4 +851,61 @@ func writesOneByte(callee *ssa.Function, args []ssa.Value, buf ssa.Value) bool {
 		}
 	}
 	return len(writes) > 0
+}
+
+// ruleR141WitnessHashPrefix keeps the reason behind the confirmed `x[h.Length():]` entries true: ExtractHash hands out
+// a hash only over a prefix of its argument that it has checked to exist, and Length() is the length of that prefix.
+func ruleR141WitnessHashPrefix(p *Program, r *Report) {
+	ex := p.Func("hmac.ExtractHash")
+	ln := p.Func("hmac.(*HashData).Length")
+	if ex == nil || ex.Blocks == nil || ln == nil || ln.Blocks == nil {
+		r.Anchor("R14.1", "hmac.ExtractHash / (*HashData).Length")
+		return
+	}
+	// Length returns len of the data field
+	okLen := false
+	for _, ret := range returnsOf(ln) {
+		if x, isLen := isLenCall(ret.Results[0]); isLen {
+			if _, f, ok := fieldOfLoad(x); ok && f == "data" {
+				okLen = true
+			}
+		}
+	}
+	// ExtractHash: the data field of the returned object is a slice data[:hi] of the parameter with hi <= len(data) proven where it is built
+	okEx := false
+	data := paramByName(ex, "data")
+	pr := newProverP(p, ex, 0)
+	for _, b := range ex.Blocks {
+		for _, in := range b.Instrs {
+			st, ok := in.(*ssa.Store)
+			if !ok {
+				continue
+			}
+			fa, ok := st.Addr.(*ssa.FieldAddr)
+			if !ok {
+				continue
+			}
+			if pt, ok := fa.X.Type().Underlying().(*types.Pointer); ok {
+				if stt, ok := pt.Elem().Underlying().(*types.Struct); ok && stt.Field(fa.Field).Name() == "data" {
+					if sl, ok := st.Val.(*ssa.Slice); ok && sl.X == ssa.Value(data) && sl.Low == nil && sl.High != nil {
+						okEx = pr.ProveLen(sl.High, 0, data, 0, b)
+					}
+				}
+			}
+		}
+	}
+	bad := ""
+	if !okLen {
+		bad = "(*HashData).Length no longer returns the length of the stored prefix"
+	}
+	if !okEx {
+		bad = "ExtractHash builds the hash over something else than a checked prefix data[:n] of its argument"
+	}
+	r.Check(bad == "", "R14.1", fnName(ex), "a hash is a checked prefix of the buffer it was extracted from", p.Pos(ex.Pos()), "HashData.data = data[:size+1] with size+1 <= len(data) proven; Length() = len(data field)", bad+": the callers slice their buffer at Length() without looking")
+}
+
+func init() {
+	mut("C14", "binary row: fixed-width value sliced without looking at the row length (original defect)", "decryptor/mysql/response_proxy.go", "	if pos < 0 || width < 0 || len(rowData)-pos < width {\n		return nil, 0, base_mysql.ErrMalformPacket\n	}\n", "", "R14.1", "fixedWidthValue")
+	mut("C14", "binary row: NULL bitmap sliced without looking at the row length (original defect)", "decryptor/mysql/response_proxy.go", "	if len(rowData) < pos {\n		// the row ends inside its NULL bitmap\n		return nil, base_mysql.ErrMalformPacket\n	}\n", "", "R14.1", "processBinaryDataRow")
+	mut("C14", "hash prefix handed out without the length test", "hmac/hash.go", "	if len(data[1:]) < size {\n		logrus.Debugln(\"Data has less length that need\")\n		return nil\n	}\n", "", "R14.1", "ExtractHash")
 }
